@@ -152,6 +152,44 @@ pub fn multi_action_cells(b: &Built) -> usize {
     n
 }
 
+/// A (state, token) from which the LR driver reduces forever without ever digging below that
+/// state: an endless chain of reductions that no input can stop (hidden left recursion left in
+/// the table by Yacc-style conflict resolution). Found by simulating the reductions demanded by
+/// each lookahead on a local stack whose base is the state itself; a reduction that would pop
+/// below the base ends the simulation (nothing is known about what lies beneath).
+pub fn reduction_loop_witness(b: &Built) -> Option<(u16, u16)> {
+    use lrtable::{Action, StIdx};
+    let grm = &b.grm;
+    let nt = ntokens(grm) as u16;
+    for stidx in b.sg.iter_stidxs() {
+        for t in 0..nt {
+            let mut stack: Vec<u16> = vec![stidx.0];
+            let mut n = 0;
+            loop {
+                match b.st.action(StIdx(*stack.last().unwrap()), TIdx(t)) {
+                    Action::Reduce(p) => {
+                        let k = grm.prod(p).len();
+                        if k >= stack.len() {
+                            break; // would pop the base or below
+                        }
+                        stack.truncate(stack.len() - k);
+                        match b.st.goto(StIdx(*stack.last().unwrap()), grm.prod_to_rule(p)) {
+                            Some(g) => stack.push(g.0),
+                            None => break,
+                        }
+                        n += 1;
+                        if n > 2000 {
+                            return Some((stidx.0, t));
+                        }
+                    }
+                    _ => break,
+                }
+            }
+        }
+    }
+    None
+}
+
 pub fn has_unproductive(grm: &YaccGrammar<u16>) -> bool {
     min_lens(grm).iter().any(|m| m.is_none())
 }
